@@ -21,7 +21,7 @@ EXHAUSTIVE_SUBDOMAINS = ["atmos on the 10 m altitude grid over [-500, 20000] m"]
 ASSUMPTIONS = ["'tabulated ISA' = analytic hydrostatic ISA with g0, R, lapse rate -6.5 K/km, isothermal above 11 km",
                "round-trip tolerance 1e-8 relative (double precision through two pow() calls)"]
 REQUIRED = ["atmos_grid", "tropopause", "roundtrip", "monotone", "sea_level", "ordering", "distance_uniform",
-            "distance_antipodal", "distance_identical", "distance_cardinal", "distance_with_H", "recall_after_in_place_edit", "narrow_integer_dtypes", "bearing", "array_equals_scalar", "types"]
+            "distance_antipodal", "distance_identical", "distance_cardinal", "distance_with_H", "recall_after_in_place_edit", "narrow_integer_dtypes", "non_contiguous_layouts", "bearing", "array_equals_scalar", "types"]
 
 
 def rel(a, b):
@@ -290,6 +290,23 @@ def m_types(ctx, case):
             if r2[0] != "ok" or np.shape(r2[1]) != (2, len(H) // 2) or not np.allclose(np.ravel(r2[1]), ra[1], rtol=1e-8, atol=0, equal_nan=True):
                 ctx.violation("2d-array-differs-from-1d", fn=f, observed=repr(r2[1:])[:120])
             ctx.hit("two_dimensional")
+            # the same table in column-major / transposed layout and as a strided view (not C-contiguous)
+            xf, hf = np.asfortranarray(x.reshape(2, -1)), np.asfortranarray(Ha.reshape(2, -1))
+            rf = call(F, xf, hf)
+            xt, ht = x.reshape(-1, 2).T, Ha.reshape(-1, 2).T
+            rt = call(F, xt, ht)
+            et = call(F, np.ascontiguousarray(xt), np.ascontiguousarray(ht))
+            xs2 = np.repeat(x, 2)[::2]
+            hs2 = np.repeat(Ha, 2)[::2]
+            rs2 = call(F, xs2, hs2)
+            ctx.ev(4)
+            okf = rf[0] == "ok" and np.shape(rf[1]) == (2, len(H) // 2) and np.allclose(np.asarray(rf[1]).reshape(2, -1), np.asarray(r2[1]), rtol=1e-8, atol=0) if r2[0] == "ok" else True
+            okt = rt[0] == "ok" and et[0] == "ok" and np.shape(rt[1]) == np.shape(et[1]) and np.allclose(rt[1], et[1], rtol=1e-8, atol=0)
+            oks = rs2[0] == "ok" and np.allclose(rs2[1], ra[1], rtol=1e-8, atol=0)
+            if not (okf and okt and oks):
+                ctx.violation("non-contiguous-array-differs-from-contiguous", fn=f, fortran=bool(okf), transposed=bool(okt), strided=bool(oks),
+                              observed=repr((rf[1:], rt[1:]))[:200])
+            ctx.hit("non_contiguous_layouts")
         ctx.hit("broadcast")
     # atmosphere with mixed-altitude and integer arrays
     for arr in (Ha, np.array([int(h) for h in H])):
